@@ -24,12 +24,12 @@ echo "[$id/$n] demo=$tname pkg=$pkgdir"
 echo "  clean:    $clean"
 echo "  modified: $modified"
 echo "  suite(modified): ${suite:-all ok}"
-# now the checker
-cd /repo && [ -z "$(git status --porcelain)" ] || { echo "repo dirty"; exit 2; }
-git apply "$patch" || { echo "patch does not apply to /repo"; exit 2; }
-mkdir -p /tmp/seed_verif && cp /verif/known_findings.json /verif/properties.jsonl /tmp/seed_verif/
+# now the checker: against the scratch worktree with the patch applied (never /repo, so that several
+# confirmations can run side by side)
+cd $wt && git apply "$patch" || { echo "patch does not apply"; exit 2; }
+sv=$(mktemp -d /tmp/seed_verif.XXXX); cp /verif/known_findings.json /verif/properties.jsonl $sv/
 for p in $id "$@"; do
-  o=$(/verif/bin/storagecheck -prop $p -tier quick -verif /tmp/seed_verif 2>&1); rc=$?
+  o=$(/verif/bin/storagecheck -prop $p -tier quick -repo $wt -verif $sv 2>&1); rc=$?
   echo "  check $p rc=$rc: $(echo "$o" | grep -E '^(VIOLATED|UNDECIDED)' | head -3 | cut -c1-220 | tr '\n' '|')"
 done
-git reset -q --hard HEAD; git clean -fdq; rm -rf /tmp/seed_verif
+git reset -q --hard HEAD; git clean -fdq; rm -rf $sv
